@@ -18,7 +18,19 @@ Monitors (all compare outputs of the REAL functions with each other; no referenc
  (vi)  ThreadSanitizer drivers: sasa.cpp, neighborlist.cpp and the RMSD kernels inside an `omp parallel for` of the same
        shape as the Cython prange loops are compiled -fsanitize=thread together with the shim (fork/join/barrier are
        pthread primitives TSan intercepts), run for several team sizes and seeds; any data-race report is a violation.
-The Cython prange loops themselves are not race-checked (no instrumented interpreter): they rely on (ii) and (v)."""
+The Cython prange loops themselves are not race-checked (no instrumented interpreter): they rely on (ii) and (v).
+
+Wider classes (cases with wide=True): FUNCTION_NAMES_WIDE adds the per-frame entry points / option values the first table never calls
+(opt=False paths, displacements, psi / omega / chi2 / J3 couplings, simplified DSSP, other SASA parameters, haystack neighbours, periodic
+neighbour lists, closest / sidechain-heavy / soft_min contacts, shape descriptors, directors / nematic order, density, dipole moments,
+per-frame cell volumes / vectors, precentered and ref_atom_indices RMSD, serial and ref_atom_indices superposition, center_coordinates
+(both weightings), find_closest_contact(frame), make_molecules_whole, image_molecules); all functions meet frame counts on team-size /
+chunk boundaries (15,16,17,31..33,63..65,99..101,255..257) with the single-frame monitor probing the frames AT those positions; index
+tables are handed over as int32 / lists / Fortran-ordered / strided views; any of the 12 cell kinds; two more monitors:
+ (i-b) sub-selections t[[i, j, i, ...]] with repeats and t[::-2]: a frame met twice gives the same value twice;
+ (i-c) the same function called on another structure in between: f(t) afterwards is bit-identical to f(t) before.
+Not per-frame and therefore left out: compute_rdf(_t), compute_distances_t, rmsf, static_dielectric, kappa_T, baker_hubbard over several
+frames (a frequency), smooth (a filter along time by design), compute_average_structure."""
 from __future__ import annotations
 
 import ctypes
@@ -40,13 +52,16 @@ NATIVE = ["mdtraj.geometry._geometry", "mdtraj._rmsd", "mdtraj._lprmsd", "mdtraj
 RULE = ("case = (function, structure source, n_frames, seed) for the python monitors, or (driver, team size, seed) for the "
         "ThreadSanitizer drivers, or (function set, environment) for child sweeps; each python case crosses 7 team sizes, "
         "repetition, frame context (single frames + a permutation) and 3 junk environments; non-trivial = at least one "
-        "bit-for-bit comparison decided; distinct = distinct descriptors")
+        "bit-for-bit comparison decided; distinct = distinct descriptors; cases with wide=True take the functions of both tables "
+        "(FUNCTION_NAMES_WIDE: 38 more per-frame entry points / option values) to frame counts on team-size / chunk boundaries (15..257), "
+        "index tables as int32 / list / Fortran / strided views, every cell kind, and add sub-selections with repeated and reversed frames "
+        "and an interleaved call on other data")
 WORKERS = {"quick": 8, "thorough": 16}
 BUDGET = {"quick": 100, "thorough": 1500}
 ENV = {"OMP_NUM_THREADS": "4"}
 GROUPS = {"quick": [dict(name="shim", flavour="shim", workers=2)], "thorough": [dict(name="shim", flavour="shim", workers=4)]}
 FLOORS = {"quick": {"threads.bitwise": 500, "context.single-frame": 200, "context.permutation": 50, "junk.bitwise": 150,
-                    "tsan.no-race": 12, "shim.bitwise": 40}}
+                    "tsan.no-race": 12, "shim.bitwise": 40, "context.subselection": 60, "context.interleaved-call": 30}}
 ASSUMPTIONS = ["OPENBLAS_NUM_THREADS=1 so that only mdtraj's own OpenMP team size varies",
                "8 ulp tolerance only for frame-context comparisons of functions whose path contains numpy reductions"]
 TEAM = [1, 2, 3, 5, 8, 16]
@@ -112,6 +127,47 @@ def functions():
     reg("lprmsd", lambda t, a: md.lprmsd(_cp(t), _cp(a["ref"]), 0, atom_indices=a["subset"]), exact=False)
     reg("compute_phi", lambda t, a: md.compute_phi(t)[1], protein=True)
     reg("compute_chi1", lambda t, a: md.compute_chi1(t)[1], protein=True)
+    # ---- wider table (FUNCTION_NAMES_WIDE): per-frame entry points, option values and code paths the table above never calls
+    reg("compute_displacements", lambda t, a: md.compute_displacements(t, a["pairs"], periodic=False))
+    reg("compute_distances(opt=False)", lambda t, a: md.compute_distances(t, a["pairs"], periodic=False, opt=False))
+    reg("compute_distances(periodic,opt=False)", lambda t, a: md.compute_distances(t, a["pairs"], periodic=True, opt=False), cell=True)
+    reg("compute_angles(periodic,opt=False)", lambda t, a: md.compute_angles(t, a["triplets"], periodic=True, opt=False), cell=True)
+    reg("compute_dihedrals(periodic,opt=False)", lambda t, a: md.compute_dihedrals(t, a["quartets"], periodic=True, opt=False), cell=True)
+    reg("compute_psi", lambda t, a: md.compute_psi(t)[1], protein=True)
+    reg("compute_omega", lambda t, a: md.compute_omega(t)[1], protein=True)
+    reg("compute_chi2", lambda t, a: md.compute_chi2(t)[1], protein=True)
+    reg("compute_J3_HN_HA", lambda t, a: md.compute_J3_HN_HA(t)[1], exact=False, protein=True)
+    reg("compute_dssp(simplified)", lambda t, a: md.compute_dssp(t, simplified=True), protein=True)
+    reg("shrake_rupley(probe=0.2,n=97)", lambda t, a: md.shrake_rupley(t, probe_radius=0.2, n_sphere_points=97))
+    reg("shrake_rupley(change_radii)", lambda t, a: md.shrake_rupley(t, n_sphere_points=30, change_radii={"C": 0.2}))
+    reg("compute_neighbors(haystack)", lambda t, a: [np.asarray(x) for x in md.compute_neighbors(t, 0.45, a["subset"][:6], haystack_indices=a["subset"][6:], periodic=False)])
+    reg("compute_neighborlist(periodic)", lambda t, a: [_nl(md.compute_neighborlist(t, 0.4, frame=i, periodic=True)) for i in range(t.n_frames)], cell=True)
+    reg("compute_contacts(closest)", lambda t, a: md.compute_contacts(t, a["respairs"], scheme="closest")[0], exact=False, protein=True)
+    reg("compute_contacts(sidechain-heavy)", lambda t, a: md.compute_contacts(t, a["respairs"], scheme="sidechain-heavy")[0], exact=False, protein=True)
+    reg("compute_contacts(soft_min)", lambda t, a: md.compute_contacts(t, a["respairs"], scheme="closest-heavy", soft_min=True)[0], exact=False, protein=True)
+    reg("principal_moments", lambda t, a: md.principal_moments(t), exact=False)
+    reg("asphericity", lambda t, a: md.asphericity(t), exact=False)
+    reg("acylindricity", lambda t, a: md.acylindricity(t), exact=False)
+    reg("relative_shape_antisotropy", lambda t, a: md.relative_shape_antisotropy(t), exact=False)
+    reg("compute_directors", lambda t, a: md.compute_directors(t, indices=a["groups"]), exact=False)
+    reg("compute_nematic_order", lambda t, a: md.compute_nematic_order(t, indices=a["groups"]), exact=False)
+    reg("density", lambda t, a: md.density(t), exact=False, cell=True)
+    reg("dipole_moments", lambda t, a: md.dipole_moments(t, a["charges"]), exact=False)
+    reg("unitcell_volumes", lambda t, a: t.unitcell_volumes, cell=True)
+    reg("unitcell_vectors", lambda t, a: t.unitcell_vectors, cell=True)
+    reg("rmsd(precentered)", lambda t, a: md.rmsd(_cp(t).center_coordinates(), _cp(a["ref"]).center_coordinates(), 0, precentered=True))
+    reg("rmsd(ref_atom_indices)", lambda t, a: md.rmsd(_cp(t), _cp(a["ref"]), 0, atom_indices=a["subset"], ref_atom_indices=a["subset"][::-1].copy()))
+    reg("superpose(parallel=False)", lambda t, a: _cp(t).superpose(_cp(a["ref"]), 0, parallel=False).xyz, exact=False)
+    reg("superpose(ref_atom_indices)", lambda t, a: _cp(t).superpose(_cp(a["ref"]), 0, atom_indices=a["subset"], ref_atom_indices=a["subset"][::-1].copy()).xyz, exact=False)
+    reg("center_coordinates", lambda t, a: _cp(t).center_coordinates().xyz)
+    reg("center_coordinates(mass_weighted)", lambda t, a: _cp(t).center_coordinates(mass_weighted=True).xyz, exact=False)
+    reg("compute_rg(masses)", lambda t, a: md.compute_rg(t, masses=np.abs(a["charges"]) + 1.0), exact=False)
+    reg("compute_drid(all atoms)", lambda t, a: md.compute_drid(t.atom_slice(a["subset"])))
+    reg("find_closest_contact(frame)", lambda t, a: [np.array(md.find_closest_contact(t, a["subset"][:5], a["subset"][5:], frame=i, periodic=False), dtype=np.float64)
+                                                     for i in range(t.n_frames)])
+    reg("make_molecules_whole", lambda t, a: _cp(t).make_molecules_whole(inplace=True).xyz, protein=True, cell=True)
+    reg("image_molecules", lambda t, a: _cp(t).image_molecules(inplace=True, anchor_molecules=[set(list(t.topology.atoms)[:50])],
+                                                                other_molecules=[set(r.atoms) for r in list(t.topology.residues)[8:]]).xyz, exact=False, protein=True, cell=True)
     return F
 
 
@@ -122,6 +178,33 @@ FUNCTION_NAMES = ["compute_distances", "compute_distances(periodic)", "compute_d
                   "compute_neighborlist", "compute_contacts", "compute_contacts(ca)", "compute_rg", "compute_center_of_mass",
                   "compute_center_of_geometry", "compute_gyration_tensor", "compute_inertia_tensor", "compute_drid", "lprmsd",
                   "compute_phi", "compute_chi1"]
+
+
+FUNCTION_NAMES_WIDE = ["compute_displacements", "compute_distances(opt=False)", "compute_distances(periodic,opt=False)", "compute_angles(periodic,opt=False)",
+                       "compute_dihedrals(periodic,opt=False)", "compute_psi", "compute_omega", "compute_chi2", "compute_J3_HN_HA", "compute_dssp(simplified)",
+                       "shrake_rupley(probe=0.2,n=97)", "shrake_rupley(change_radii)", "compute_neighbors(haystack)", "compute_neighborlist(periodic)",
+                       "compute_contacts(closest)", "compute_contacts(sidechain-heavy)", "compute_contacts(soft_min)", "principal_moments", "asphericity",
+                       "acylindricity", "relative_shape_antisotropy", "compute_directors", "compute_nematic_order", "density", "dipole_moments",
+                       "unitcell_volumes", "unitcell_vectors", "rmsd(precentered)", "rmsd(ref_atom_indices)", "superpose(parallel=False)",
+                       "superpose(ref_atom_indices)", "center_coordinates", "center_coordinates(mass_weighted)", "compute_rg(masses)",
+                       "compute_drid(all atoms)", "find_closest_contact(frame)", "make_molecules_whole", "image_molecules"]
+# frame counts sitting on / next to team sizes (1..16), twice a team size, the 100-frame default chunk and 256
+BOUNDARY_NF = [15, 16, 17, 31, 32, 33, 63, 64, 65, 99, 100, 101, 255, 256]
+IDX_KINDS = ["int64", "int32", "list", "fortran-view", "strided-view"]
+
+
+def _idx(arr, kind):
+    """the same index table in another container / dtype / memory layout"""
+    arr = np.asarray(arr)
+    if kind == "int32":
+        return arr.astype(np.int32)
+    if kind == "list":
+        return arr.tolist()
+    if kind == "fortran-view":
+        return np.asfortranarray(arr)
+    if kind == "strided-view":
+        return np.repeat(arr, 2, axis=0)[::2]
+    return arr
 
 
 def _nl(lst):
@@ -224,6 +307,12 @@ def structure(case, need_protein, need_cell):
         args["quartets"] = np.array([[0, 1, 2, 3]])
     ref = md.Trajectory(np.array(t.xyz[:1] + rng.normal(scale=0.05, size=(1, t.n_atoms, 3)), dtype=np.float32), t.topology)
     args["ref"] = ref
+    args["charges"] = rng.uniform(-0.5, 0.5, t.n_atoms)
+    res_atoms = [[x.index for x in r.atoms] for r in t.topology.residues]
+    args["groups"] = [g for g in res_atoms if len(g) >= 3][:8] or [list(range(min(3, t.n_atoms)))]
+    if case.get("idx_kind"):
+        for k_ in ("pairs", "triplets", "quartets", "subset"):
+            args[k_] = _idx(args[k_], case["idx_kind"]) if k_ != "subset" or case["idx_kind"] in ("int32", "int64", "strided-view") else args[k_]
     nres = t.topology.n_residues
     args["respairs"] = np.array([[i, j] for i in range(0, min(nres, 12)) for j in range(i + 3, min(nres, 12))][:20]) if nres > 4 else None
     return t, args
@@ -281,6 +370,30 @@ def gen_cases(tier, seed):
                     d["i"] = i
                     yield d
                     i += 1
+    # wider classes: the functions of the wider table, and every function at frame counts on team-size / chunk boundaries, with index
+    # tables in other containers / dtypes / layouts, any cell kind; these cases also run the sub-selection and interleaved-call monitors.
+    # quick: each function once or twice per run (rotating through the boundary counts by seed), thorough: all of them
+    allnames = FUNCTION_NAMES_WIDE + FUNCTION_NAMES
+    i = max(i, 100000)
+    for k, name in enumerate(allnames):
+        wide_fn = name in FUNCTION_NAMES_WIDE
+        nvar = 1 if tier == "quick" else 6
+        for variant in range(nvar):
+            rng = common.rng_for("C08w", seed, k, variant)
+            heavy = name.startswith(("compute_dssp", "kabsch_sander", "wernet_nilsson", "baker_hubbard", "compute_contacts", "shrake_rupley", "make_molecules", "image_molecules"))
+            # wide-table functions: a LONG trajectory (every frame position up to 255..257 exists; 63..65 for the expensive ones) in
+            # every third variant (quick: for every other function, alternating with the seed), otherwise a boundary count rotating
+            # with the seed; original-table functions (which meet 130 / 257 frames in the cases above): a boundary count
+            nfs = [x for x in BOUNDARY_NF if x <= (33 if heavy else 101)]
+            if wide_fn and ((variant % 3 == 0) if tier != "quick" else ((k + seed) % 2 == 0)):
+                nf = int(([63, 64, 65] if heavy else [255, 256, 257])[(k + seed + variant) % 3])
+            else:
+                nf = int(nfs[(k + 3 * variant + seed) % len(nfs)])
+            yield dict(i=i, kind="py", wide=True, fn=name, seed=common.case_seed(seed, "C08w", i), n_frames=nf,
+                       source="protein" if (variant % 3 == 1) else "lattice", n_atoms=int(rng.choice([7, 30, 61, 150, 333])),
+                       cell=bool(rng.random() < 0.4), cellkind=str(rng.choice(common.CELL_KINDS)), idx_kind=str(rng.choice(IDX_KINDS)),
+                       water_first=False, md_protein=bool(name in MD_PROTEIN_FNS and rng.random() < 0.4))
+            i += 1
     # ThreadSanitizer drivers
     for drv, argsets in (("sasa", [[8, 60, 40], [5, 33, 20], [13, 20, 30]]), ("neighborlist", [[400, 1], [900, 0], [150, 1]]),
                          ("rmsd", [[16, 37], [7, 64], [33, 3]])):
@@ -357,6 +470,8 @@ def run_case(case, ctx):
     _set_threads(4)
     # (i) frame context
     sample = sorted(set([0, n - 1] + [int(x) for x in rng.integers(0, n, 4)]))
+    if case.get("wide"):  # plus the frames sitting on team-size / chunk boundaries of this trajectory
+        sample = sorted(set(sample + [x for x in (15, 16, 17, 31, 32, 33, 63, 64, 65, 99, 100, 101, 127, 128, 129, 255, 256) if x < n]))
     for i in sample:
         one = call(t[i], 4)[0]
         ok = same(one, base[i], spec["exact"])
@@ -393,6 +508,34 @@ def run_case(case, ctx):
                           f"{name}: frames {bad[:6]} change value when the trajectory is reordered")
             return
         ctx.ok("context.permutation")
+    if case.get("wide"):
+        ctx.observe("wide.index_layout", case.get("idx_kind"))
+        ctx.observe("wide.n_frames", f"{name}:{n}" if n >= 15 else "1-8")
+        # (i-b) sub-selections with repeated and reversed frames: a frame met twice gives the same value twice
+        sel = [int(x) for x in rng.integers(0, n, min(n + 2, 12))] + [n - 1, 0, 0]
+        for key, idxs, what in ((np.array(sel), sel, "index list with repeats"), (slice(None, None, -2), list(range(n))[::-1][::2], "reversed strided slice")):
+            gs = call(t[key], 4)
+            bad = [idxs[k] for k in range(len(idxs)) if not same(gs[k], base[idxs[k]], spec["exact"])]
+            if bad:
+                ctx.violation("context.subselection", f"{name}:frame-result-depends-on-the-selection-it-is-part-of",
+                              f"{name}: frames {bad[:6]} change value inside t[{what}]")
+                return
+            ctx.ok("context.subselection")
+        # (i-c) another call of the same function on a different structure in between: nothing may be carried from call to call
+        other_case = dict(case, n_frames=3, n_atoms=int(case["n_atoms"]) + 5, source="lattice", seed=case["seed"] + 1, md_protein=False, water_first=False)
+        try:
+            t2, args2 = structure(other_case, spec["protein"], spec["cell"])
+            fn(t2, args2)
+        except Exception as e:
+            ctx.skip("context.interleaved-call", f"the in-between call raised {type(e).__name__}")
+        else:
+            again = call(t, 4)
+            bad = [k for k in range(n) if not same(again[k], base[k], True)]
+            if bad:
+                ctx.violation("context.interleaved-call", f"{name}:result-depends-on-an-earlier-call-on-other-data",
+                              f"{name}: frames {bad[:6]} differ after the same function was called on another structure in between")
+                return
+            ctx.ok("context.interleaved-call")
     # (iii) junk differential
     for junk in ("nan", "huge", "other"):
         g, buf = guarded(t, junk, rng)
